@@ -37,6 +37,7 @@ def execute(scn: Scenario, prefix=(), want_obs=False):
     scheduler.  Returns dict(trace, why, viol, summary, steps)."""
     chooser = sim.ReplayChooser(prefix)
     s = sim.Sched(chooser=chooser, adversarial=scn.adversarial, max_steps=scn.max_steps, max_time=scn.max_time, fast_forward=scn.fast_forward)
+    s.point_after_spawn = getattr(scn, "point_after_spawn", False)
     with sim.installed(s, watch=scn.watch):
         ctx = scn.build(s)
         why = s.run()
